@@ -425,7 +425,7 @@ pub open spec fn final_written_matches(w: Seq<u8>, w0: Seq<u8>, img: Seq<u8>) ->
         !s5_repr(ta_view(self.target)) ==> ret.is_err(),
 //@ end
 
-//@ hint SocksRequest::write_v5 before `x.insert(0,`
+//@ hint SocksRequest::write_v5 before `let mut x = `
                 proof { axiom_string_utf8(*domain); }
 //@ end
 
